@@ -1,7 +1,10 @@
 package hx
 
 import (
+	"math/big"
 	"strings"
+
+	"verif/engine/sx"
 )
 
 // ClassifyFinding maps a reproduced finding to a known-finding class ("" if none).
@@ -28,6 +31,57 @@ func init() {
 	Checks["C03"] = checkC03
 	Checks["C06"] = checkC06
 	Checks["C07"] = checkC07
+	Checks["C08"] = checkC08
+}
+
+var allNumReps = []int{sx.RepFloat64, sx.RepFloat32, sx.RepInt, sx.RepInt8, sx.RepInt16, sx.RepInt32, sx.RepInt64, sx.RepUint, sx.RepUint8, sx.RepUint16, sx.RepUint32, sx.RepUint64, sx.RepUintptr, sx.RepJSONNumber}
+
+var two53 = new(big.Int).Lsh(big.NewInt(1), 53)
+
+// repProfile derives a skeleton whose instance template varies one representation dimension.
+func repProfile(p *sx.Program, sk *Skeleton, profile string) *Skeleton {
+	c := *sk
+	tm := *sk.Tm
+	c.Name = sk.Name + "@" + profile
+	tm.StrT = p.NamedType("VerifStr")
+	tm.KeyT = p.NamedType("VerifKey")
+	switch profile {
+	case "numeric":
+		tm.NumReps = allNumReps
+		tm.IntAbsLimit = two53
+		tm.JNIntegersOnly = true
+	case "containers":
+		tm.NumReps = []int{sx.RepFloat64, sx.RepInt}
+		tm.IntAbsLimit = two53
+		tm.ContainerReps = true
+	case "wrappers":
+		tm.Wrappers = true
+	case "all":
+		tm.NumReps = []int{sx.RepFloat64, sx.RepInt64, sx.RepUint8, sx.RepJSONNumber}
+		tm.IntAbsLimit = two53
+		tm.JNIntegersOnly = true
+		tm.ContainerReps = true
+		tm.Wrappers = true
+	}
+	c.Tm = &tm
+	return &c
+}
+
+func checkC08(cc *CheckCtx, r *Report) {
+	ts := TmplSpec{Depth: 2, MaxLen: 2, MaxKeys: 2}
+	base := append(FamilySingle(ts), FamilyPair(ts, false)...)
+	var skels []*Skeleton
+	for _, sk := range base {
+		kind := strings.SplitN(strings.TrimPrefix(sk.Name, sk.Family+"/"), ".", 2)[0]
+		skels = append(skels, repProfile(cc.P, sk, "numeric"))
+		if kind != "scalar" || strings.Contains(sk.Doc, "enum") || strings.Contains(sk.Doc, "const") {
+			skels = append(skels, repProfile(cc.P, sk, "containers"), repProfile(cc.P, sk, "wrappers"))
+		}
+	}
+	r.Bounds = append(r.Bounds, boundsValidate...)
+	r.Bounds = append(r.Bounds, "representation profiles: numeric (all 14 numeric kinds incl. float32 and json.Number, containers canonical), containers (typed slices/maps, Go arrays, named string and named key types; numbers float64|int), wrappers (one pointer layer at top level and in interface slots); integer-kind and json.Number values bounded by |v| <= 2^53 and json.Number texts integral, where the exact value equals the canonical float64 decoding")
+	r.Outside = append(r.Outside, "nil slices, nil maps and struct instances (the property's own exclusions); integers beyond 2^53 and json.Number texts that are not exactly a float64 (canonical decoding rounds them; decimal-to-binary rounding is not modelled)")
+	cc.RunValidateFamily(r, skels, VOptions{ValidatePaths: true})
 }
 
 func checkC02(cc *CheckCtx, r *Report) {
